@@ -299,7 +299,61 @@ func runC10(c *Ctx) {
 		udpHandle(c, uc)
 		c.Kind("bitflip")
 	}
+	// sessions: what clients really do — ONE connection ID used for several requests in a row, with other clients'
+	// connects and requests in between, all through the same frontend (pooled generators keep whatever they cache);
+	// forged IDs assembled from the session's timestamp and the tag the tracker has just issued to someone else
+	session := func() {
+		base := defaultUDPCase(r)
+		B := srcs[r.Intn(len(srcs))]
+		C := srcs[r.Intn(len(srcs))]
+		if ip4 := B.To4(); ip4 != nil && r.Intn(4) != 0 {
+			B = ip4
+		}
+		if ip4 := C.To4(); ip4 != nil && r.Intn(4) != 0 {
+			C = ip4
+		}
+		at := func(src net.IP) udpCase {
+			uc := defaultUDPCase(r)
+			uc.now, uc.skew, uc.src = base.now, base.skew, src
+			return uc
+		}
+		ucB := at(B)
+		cidB := validConnID(ucB, time.Duration(r.Intn(3))*time.Second)
+		for k := 2 + r.Intn(6); k > 0; k-- {
+			switch r.Intn(6) {
+			case 0, 1: // B again, same ID
+				uc := at(B)
+				body(&uc, acts[r.Intn(3)], append([]byte{}, cidB...))
+				udpHandle(c, uc)
+				c.Kind("session-same-id")
+			case 2: // somebody connects
+				uc := at([]net.IP{B, C}[r.Intn(2)])
+				uc.pkt = append(append([]byte{0, 0, 0x04, 0x17, 0x27, 0x10, 0x19, 0x80}, 0, 0, 0, 0), r.Bytes(4)...)
+				udpHandle(c, uc)
+				c.Kind("session-connect")
+			case 3: // C uses B's ID
+				uc := at(C)
+				body(&uc, acts[r.Intn(3)], append([]byte{}, cidB...))
+				udpHandle(c, uc)
+				c.Kind("session-stolen-id")
+			case 4: // B sends its timestamp with the tag issued to C just now (never issued to B)
+				uc := at(B)
+				forged := append(append([]byte{}, cidB[:4]...), validConnID(at(C), 0)[4:]...)
+				body(&uc, acts[r.Intn(3)], forged)
+				udpHandle(c, uc)
+				c.Kind("session-forged-id")
+			case 5: // C with its own fresh ID
+				uc := at(C)
+				body(&uc, acts[r.Intn(3)], validConnID(uc, 0))
+				udpHandle(c, uc)
+				c.Kind("session-other-client")
+			}
+		}
+	}
 	for i := 0; i < c.N; i++ {
+		if i%12 == 5 {
+			session()
+		}
 		uc := defaultUDPCase(r)
 		uc.src = srcs[r.Intn(len(srcs))]
 		if ip4 := uc.src.To4(); ip4 != nil && r.Intn(4) != 0 {
